@@ -52,6 +52,8 @@ func checkC17(c *Ctx) {
 	c17TypedErrorsWrapped(c, classify)
 	c17NoNestedRetry(c, exec)
 	c17OneSendPerAttempt(c, exec)
+	c17AttemptsUnderPolicy(c, exec)
+	c17AttemptCtx(c, exec)
 }
 
 // fieldLoadNamed: v is a load of field `name` (of any struct).
